@@ -244,7 +244,7 @@ def run(ctx):
             t = f[0]
             # rest = plaintext[end of measurement ..]: `rest is non-empty`
             x = L.lin(t.args[0])
-            restlen = L.lin(mk("len", plain)).add(L.lin(mw[2]), -1) if mw else None
+            restlen = L.lin(eng.length({}, plain)).add(L.lin(mw[2]), -1) if mw else None
             if t.op == "eq" and f[1:] == ("eq", 0) and t.args[1].op == "int" and t.args[1].args[0] == 0 and restlen is not None and x.key() == restlen.key():
                 present.append(f)
             else:
